@@ -250,6 +250,11 @@ func checkDecode(k *mon.Case, s string, def *chaincfg.Params, origin string) add
 		return nil
 	case want != nil && err != nil:
 		key := "addr:DecodeAddress:rejects-valid:" + origin + ":" + want.kind
+		if want.hrp == "" && shadowedByHRP(s) {
+			// one defect class, one key: a base58 / hex string that begins (case-insensitively) with a registered
+			// HRP followed by its last '1' is routed to the segwit decoder only
+			key = "addr:DecodeAddress:rejects-valid:base58-shadowed-by-bech32-hrp"
+		}
 		if len(want.hrp) == 1 {
 			// one defect class, one key: segwit addresses of a network whose HRP has a single character
 			key = "addr:DecodeAddress:rejects-valid:one-char-hrp"
@@ -614,5 +619,45 @@ func famComputePkScript(c *mon.Ctx) func(k *mon.Case) {
 		k.Count("script.computepk", 1)
 		k.Count("script.computepk."+kind, 1)
 		k.Eval(mon.Sig("computepk", n.Name, kind, want.str), true)
+	}
+}
+
+// shadowedByHRP reports whether the part of s before its last '1' is, ignoring case, the HRP of a registered network.
+func shadowedByHRP(s string) bool {
+	one := strings.LastIndexByte(s, '1')
+	return one >= 1 && hrpRegistered(strings.ToLower(s[:one]))
+}
+
+// famAddrShadow searches, per network and base58 kind, for payloads whose address string begins with a registered
+// HRP and the separator character (e.g. a simnet address "sb1..." / "Sb1..." without a later '1'): such a string
+// is a valid Base58Check address and not a valid Bech32 string, so it must decode as the base58 address.
+func famAddrShadow(c *mon.Ctx) func(k *mon.Case) {
+	return func(k *mon.Case) {
+		r := k.Rand
+		n := nets[int(k.Index)%len(nets)]
+		kind := []string{"p2pkh", "p2sh"}[(int(k.Index)/len(nets))%2]
+		k.Desc(map[string]any{"net": n.Name, "kind": kind})
+		var want *refAddr
+		for tries := 0; tries < 6000; tries++ {
+			w := makeRef(kind, n, r.Bytes(20))
+			if shadowedByHRP(w.str) {
+				want = w
+				break
+			}
+		}
+		if want == nil {
+			k.Count("addr.shadow.no-such-address", 1)
+			return
+		}
+		k.Desc(map[string]any{"net": n.Name, "kind": kind, "addr": want.str, "payload": hex.EncodeToString(want.payload)})
+		k.Count("addr.shadow.found", 1)
+		a, err := construct(want, n)
+		if err != nil {
+			k.Failf("addr:construct:"+kind, "%v", err)
+			return
+		}
+		checkAgainstRef(k, "construct", a, want)
+		checkDecode(k, want.str, n, "shadow")
+		k.Eval(mon.Sig("addr.shadow", n.Name, kind, want.str), true)
 	}
 }
